@@ -396,6 +396,19 @@ class Runtime:
         return self.verdict
 
     # -- helpers for oracles ---------------------------------------------------------------------------------
+    def stuck_locks(self):
+        """Locks whose owner will never release them by itself: the owner thread has ended, or is blocked
+        without a deadline. (A thread that is merely descheduled - stalled, sleeping, runnable - still holds
+        its locks legitimately.)"""
+        out = []
+        for lk in self.lock_registry:
+            o = lk._owner
+            if o is None:
+                continue
+            if o.state == DONE or (o.state == BLOCKED and o.deadline is None):
+                out.append((lk.label, o.name, o.state, o.wait_label if o.state != DONE else None))
+        return out
+
     def live_library_threads(self):
         return [t for t in self.threads if t.library and t.state != DONE]
 
